@@ -167,7 +167,7 @@ func (p Ether) AppendPayload(payload []byte) (Ether, error) {
 	if len(payload)+14 > cap(p) { //must be enough capacity to store header + payload
 		return nil, ErrPayloadTooBig
 	}
-	copy(p.Payload()[:cap(payload)], payload)
+	copy(p[14:14+len(payload)], payload) // sized by the payload's length: its spare capacity is not ours to look at
 
 	// An Ethernet frame has a minimum size of 60 bytes because anything that is shorter is interpreted
 	// by receiving station as a frame resulting from a collision. This len was chosen to occupy the whole
